@@ -92,6 +92,9 @@ namespace mfuse
 
         mfuse_EXPORTS bool ObjectPositionExists(const void* obj) const noexcept;
 
+        /** Number of bytes the read stream still holds (a length taken from the archive cannot exceed it). */
+        mfuse_EXPORTS size_t GetRemainingSize();
+
         mfuse_EXPORTS bool Loading() const;
         mfuse_EXPORTS bool IsReading() const;
         mfuse_EXPORTS bool IsSaving() const;
